@@ -3,11 +3,11 @@
 EXTENDS Lifecycle, IOUtils
 Obs == JsonDeserialize(IOEnv.OBS_FILE)   \* sequence of [tree, link, obsUaf, obsRna]
 VARIABLE i
-JInit == i \in 1..Len(Obs) /\ tree = Obs[i].tree /\ link = Obs[i].link
-JNext == UNCHANGED <<i, tree, link>>
-JSpec == JInit /\ [][JNext]_<<i, tree, link>>
+JInit == i \in 1..Len(Obs) /\ tree = Obs[i].tree /\ link = Obs[i].link /\ extra = Obs[i].extra
+JNext == UNCHANGED <<i, tree, link, extra>>
+JSpec == JInit /\ [][JNext]_<<i, tree, link, extra>>
 UafAgrees == Obs[i].obsUaf = UAF(tree, Len(tree))
-RnaSound == Obs[i].obsRna => RNAAllowed(tree, Len(tree), link)
+RnaSound == Obs[i].obsRna => RNAAllowed(tree, Len(tree), link, extra)
 Report == /\ IF UafAgrees THEN TRUE ELSE PrintT(<<"DISAGREE", i, "uaf", IF Obs[i].obsUaf THEN "unsound" ELSE "incomplete">>)
           /\ IF RnaSound THEN TRUE ELSE PrintT(<<"DISAGREE", i, "rna", "unsound">>)
 =============================================================================
